@@ -7,6 +7,7 @@ import (
 	"math/rand/v2"
 	"net"
 	"sort"
+	"sync"
 
 	"github.com/vmware/go-ipfix/pkg/entities"
 	"github.com/vmware/go-ipfix/pkg/registry"
@@ -362,4 +363,45 @@ func encodedLen(sp elemSpec, w []byte) int {
 		return len(w) + 1
 	}
 	return len(w) + 3
+}
+
+var (
+	twinOnce sync.Once
+	twinOf   map[int]int
+)
+
+// catalogTwin: another element of the catalogue with the same element id, data type and length and
+// another enterprise number (an IANA element and its reverse counterpart).
+func catalogTwin(i int) (int, bool) {
+	twinOnce.Do(func() {
+		twinOf = map[int]int{}
+		type k struct {
+			id  uint16
+			t   entities.IEDataType
+			len uint16
+		}
+		by := map[k][]int{}
+		for j, e := range catalog {
+			by[k{e.ID, e.Type, e.Len}] = append(by[k{e.ID, e.Type, e.Len}], j)
+		}
+		for _, js := range by {
+			for a, j := range js {
+				for _, j2 := range js[a+1:] {
+					if catalog[j].Ent != catalog[j2].Ent {
+						if _, ok := twinOf[j]; !ok {
+							twinOf[j] = j2
+						}
+						if _, ok := twinOf[j2]; !ok {
+							twinOf[j2] = j
+						}
+					}
+				}
+			}
+		}
+	})
+	if i < 0 || i >= len(catalog) {
+		return 0, false
+	}
+	j, ok := twinOf[i]
+	return j, ok
 }
